@@ -517,6 +517,7 @@ func wcRun(id int, sc *wcScen) {
 	extCounter := int64(0)
 	lastPattern := ""
 	lastDir := 0
+	allPatterns := map[string]int{}
 	crashed := false
 	for _, st := range sc.Steps {
 		if crashed {
@@ -559,6 +560,7 @@ func wcRun(id int, sc *wcScen) {
 				vEmit(vmap{"ev": "Req", "req": strings.ToUpper(st.Req), "label": st.Label, "types": types, "ok": err == nil, "rep": rep, "dirnew": isnew, "open": open})
 				if pat != "" {
 					lastPattern, lastDir = pat, dirIdx[filepath.Dir(pat)]
+					allPatterns[pat] = lastDir
 				}
 				if strings.ToUpper(st.Req) == "STOP" && err == nil && patBefore != "" {
 					wcEmitFiles(sc, ds, patBefore, dBefore, projs, bases)
@@ -623,6 +625,35 @@ func wcRun(id int, sc *wcScen) {
 			wcEmitFiles(sc, ds, lastPattern, lastDir, projs, bases)
 		}
 	}()
+	// every session directory once more: nothing may have been stored there after its session ended
+	if !crashed {
+		pats := []string{}
+		for p := range allPatterns {
+			pats = append(pats, p)
+		}
+		sort.Strings(pats)
+		for _, p := range pats {
+			for c := 0; c < sc.Nchan; c++ {
+				name := ds.chanNames[c]
+				for _, t := range []string{"L22", "L3", "OFF"} {
+					var f wcFile
+					switch t {
+					case "L22":
+						f = wcDecodeLJH22(fmt.Sprintf(p, name, "ljh"), sc.Frame0)
+					case "L3":
+						f = wcDecodeLJH3(fmt.Sprintf(p, name, "ljh3"), sc.Frame0)
+					case "OFF":
+						f = wcDecodeOFF(fmt.Sprintf(p, name, "off"), sc.Frame0)
+					}
+					frames := []any{}
+					for _, r := range f.Recs {
+						frames = append(frames, r[0])
+					}
+					vEmit(vmap{"ev": "FileFinal", "dir": allPatterns[p], "c": c, "t": t, "frames": frames})
+				}
+			}
+		}
+	}
 	vEmit(vmap{"ev": "End"})
 }
 
